@@ -254,21 +254,22 @@ func c02ExpectedKeys(nodes []GAttr) []string {
 
 // ---- input and observation of one call ----
 type c02Input struct {
-	Kind   string   `json:"kind"` // corpus | random | replay
-	Recv   string   `json:"recv"`
-	Name   string   `json:"name"`
-	EPKind string   `json:"ep_kind"`
-	Sev    int      `json:"severity"`
-	Mode   string   `json:"mode"`
-	Level  int      `json:"logger_level"`
-	Dbg    bool     `json:"debug"`
-	Flags  int64    `json:"flags"`
-	TagW   int      `json:"tag_width"`
-	MinW   int      `json:"min_width"`
-	Ops    []WOp    `json:"ops"`
-	Own    []C02Arg `json:"own,omitempty"`
-	Msg    string   `json:"msg"`
-	Args   []C02Arg `json:"args"`
+	Kind      string   `json:"kind"` // corpus | random | replay
+	Recv      string   `json:"recv"`
+	Name      string   `json:"name"`
+	EPKind    string   `json:"ep_kind"`
+	Sev       int      `json:"severity"`
+	Mode      string   `json:"mode"`
+	Level     int      `json:"logger_level"`
+	Dbg       bool     `json:"debug"`
+	Flags     int64    `json:"flags"`
+	TagW      int      `json:"tag_width"`
+	TagWAfter int      `json:"tag_width_after,omitempty"` // a width outside 0..5 handed to SetLevelOutputWidth afterwards: ignored by the setter
+	MinW      int      `json:"min_width"`
+	Ops       []WOp    `json:"ops"`
+	Own       []C02Arg `json:"own,omitempty"`
+	Msg       string   `json:"msg"`
+	Args      []C02Arg `json:"args"`
 }
 
 // a third of the cases (a function of the case): the destinations themselves log while written to
@@ -347,6 +348,9 @@ func c02Logger(in c02Input, snap *slog.VerifRegistry) *slog.Entry {
 	slog.SetFlags((slog.GetFlags() &^ slog.Flags(c02ToggleMask)) | slog.Flags(in.Flags&c02ToggleMask))
 	slog.SetLevelOutputWidth(in.TagW)
 	slog.SetMessageMinimalWidth(in.MinW)
+	if in.TagWAfter != 0 {
+		slog.SetLevelOutputWidth(in.TagWAfter)
+	}
 	var e *slog.Entry
 	if in.Recv == "pkg" {
 		e = slog.VerifEntryOf(slog.Default())
@@ -1139,6 +1143,9 @@ func genC02Input(r *Rng, eps []entryPoint) c02Input {
 	if in.Mode == "color" {
 		in.TagW = 1 + r.Intn(5)
 		in.MinW = []int{36, 36, 16, 50, 200, 165}[r.Intn(6)]
+		if r.Chance(10) {
+			in.TagWAfter = []int{6, 7, 64, -1, -100}[r.Intn(5)]
+		}
 	}
 	sev := in.Sev
 	if sev == sevNever {
